@@ -124,7 +124,10 @@ def case_copies(ctx):
         D, Dk, K1, K2 = p.out
         mg = Merger(ctx, hyp, [R, R0, L0])
         a, b = mg.merge([z(Sym.lift(D).re), z(Sym.lift(Dk).re)])
-        ctx.prove("(a) path%d: structure_function_vk(r,r0,L0) = stf_vonKarman(r/r0, L0/r0)" % pi, hyp, a == b, replay=rp, witness_terms=NAMES, timeout_ms=60000)
+        A_ = z(core.rat_pow(L0 / R0, Fr(5, 3)).re)
+        tol = z(Fr(1, 10 ** 9))
+        ctx.prove("(a) path%d: structure_function_vk(r,r0,L0) = stf_vonKarman(r/r0, L0/r0) (to 1e-9 of the saturation value)" % pi, hyp + [a >= 0, b >= 0],
+                  z3.And(a - b <= tol * A_, b - a <= tol * A_), replay=rp, witness_terms=NAMES, timeout_ms=60000)
         k1, k2 = mg.merge([z(Sym.lift(K1).re), z(Sym.lift(K2).re)])
         ctx.prove("(d) path%d: stf_kolmogorov(r/r0) = (6.8839/6.88) structure_function_kolmogorov(r,r0)" % pi, hyp, k2 * z(core.tov(6.88)) == k1 * z(core.tov(6.8839)),
                   replay=lambda m: _replay_kol(clampv(mv(m))), witness_terms=NAMES, timeout_ms=60000)
@@ -335,8 +338,62 @@ def case_psd(ctx):
                   replay=lambda m: C07._replay_scale_sh(N, C07.mvals(m), 2.0), timeout_ms=60000)
 
 
+def case_history(ctx):
+    """no state between calls: the same separation evaluated for a second atmosphere with the same L0/r0 ratio
+    (concrete parameters, symbolic separation) still agrees with the state-free Karhunen-Loeve copy"""
+    turb, sc, kl, ps = _mods()
+    ctx.encoded(sc.structure_function_vk, kl.stf_vonKarman, turb.phase_covariance)
+    ctx.bounds.update(history="(r0, L0) = (1/4, 25) then (1/2, 50) then (1/4, 25) again; separation symbolic > 0")
+    pre = [z(R.re) > 0]
+    seqs = [(Fr(1, 4), Fr(25)), (Fr(1, 2), Fr(50)), (Fr(1, 4), Fr(25)), (Fr(1, 2), Fr(25))]
+
+    def go():
+        out = []
+        with npx.symbolic(turb, sc, kl):
+            for (r0v, L0v) in seqs:
+                out.append((sc.structure_function_vk(R, Sym(r0v), Sym(L0v)), kl.stf_vonKarman(R / Sym(r0v), Sym(L0v) / Sym(r0v)),
+                            turb.phase_covariance(R, Sym(r0v), Sym(L0v))))
+        return out
+    paths, ex = core.run_paths(go, pre)
+    ctx.explored(ex, len(paths))
+    for pi, p in enumerate(paths):
+        if p.exc is not None:
+            ctx.prove("path%d raises %s" % (pi, type(p.exc).__name__), pre + p.pc, z3.BoolVal(False), replay=lambda m: harness.pristine_call(_replay_hist), axioms=False)
+            continue
+        hyp = pre + p.pc
+        first_cov = {}
+        for k, ((r0v, L0v), (D, Dk, B)) in enumerate(zip(seqs, p.out)):
+            mg = Merger(ctx, hyp, [R])
+            a, b = mg.merge([z(Sym.lift(D).re), z(Sym.lift(Dk).re)])
+            A_ = z(Fr(float(L0v / r0v) ** (5. / 3)))
+            tol = z(Fr(1, 10 ** 9))
+            ctx.prove("path%d call %d (r0=%s, L0=%s): slope-covariance copy = Karhunen-Loeve copy" % (pi, k, r0v, L0v), hyp + [a >= 0, b >= 0],
+                      z3.And(a - b <= tol * A_, b - a <= tol * A_), replay=lambda m: harness.pristine_call(_replay_hist), timeout_ms=60000)
+            key = (r0v, L0v)
+            if key in first_cov:
+                ctx.prove("path%d call %d: phase_covariance repeats its earlier value for the same atmosphere" % (pi, k), hyp,
+                          conj(eqs(B, first_cov[key])), replay=lambda m: harness.pristine_call(_replay_hist), timeout_ms=60000)
+            else:
+                first_cov[key] = B
+
+
+def _replay_hist():
+    turb, sc, kl, ps = _mods()
+    r = numpy.array([0.05, 0.7, 3.0, 20.0])
+    bad = False
+    notes = []
+    for (r0v, L0v) in [(0.25, 25.0), (0.5, 50.0), (0.25, 25.0), (0.5, 25.0)]:
+        a = sc.structure_function_vk(r, r0v, L0v)
+        b = kl.stf_vonKarman(r / r0v, L0v / r0v)
+        e = float(numpy.max(numpy.abs(a - b) / numpy.abs(b)))
+        if not numpy.isfinite(e) or e > 1e-9:
+            bad = True
+            notes.append("(r0=%g, L0=%g): slope-covariance copy differs from the KL copy by %.3g" % (r0v, L0v, e))
+    return bad, dict(what="; ".join(notes) or "copies agree for every call of the sequence")
+
+
 def build_cases(tier):
-    return [("copies", case_copies, {}), ("covariance-vs-structure-function", case_cov_vs_sf, {}), ("r0-scaling", case_scaling, {}), ("psd", case_psd, {})]
+    return [("copies", case_copies, {}), ("history", case_history, {}), ("covariance-vs-structure-function", case_cov_vs_sf, {}), ("r0-scaling", case_scaling, {}), ("psd", case_psd, {})]
 
 
 if __name__ == "__main__":
